@@ -104,7 +104,11 @@ func (c *Context) Leave() {
 		}))
 	}
 	c.leaveLock.Unlock()
-	<-c.leaveWait
+	select {
+	case <-c.leaveWait:
+	case <-time.After(getViewTimeout):
+		// 节点 Actor 已不可用（被终止或故障）时不会再有离开完成事件，超时后直接返回，不阻塞 Stop 流程
+	}
 }
 
 // getView 向 NodeActor 请求当前视图，用于 GetMembers、InQuorum。
